@@ -9,12 +9,12 @@ TECHNIQUE = {
     "C03": "static analysis: printer/parser template tables folded over all part classes vs the RFC 3986 Appendix B expression, print-parse-print fixed point of the authority, stable/terminator-free quoting tables, quoter-vs-requoter stability, ordering rules (quote before normalise), no dot segment stored by with_name/with_suffix under an authority, query pair-quoting typestate",
     "C04": "static analysis: exhaustive 128-character policy table per configuration derived from emission guards, lower = upper bound for requoters, identity fast-path rules, dot segments kept without authority at the constructor, whole-argument rule of the host encoder",
     "C05": "static analysis: sibling cross-check - one rule set over the .py ast and the Cython-parsed .pyx, derived policy tables compared, look-ahead bounds, drop-stage and statelessness rules, C-level narrowing of text units judged on path bounds (interprocedural unit-parameter fixpoint), contract of the byte writer (unit stored, changed flag accumulated on every success path), must-account-for-the-pending-buffer rule on every emission path of the compiled unquoter",
-    "C06": "static analysis: unquoter emission-class audit (both backends) incl. the length of verbatim copies as a linear form, escape-syntax acceptance sets (pattern classes / table keys), accessor/unquoter/raw-role pairing by typestate, write-side quoter audit and tables, builder argument flow, verbatim constructor sinks, kind-checked return-self short-cuts, stateless shared unquoter instances, pending-buffer rule on every emission path of the compiled unquoter, parameter-to-cache taint rule for pre-filled query pairs",
+    "C06": "static analysis: unquoter emission-class audit (both backends) incl. the length of verbatim copies as a linear form, escape-syntax acceptance sets (pattern classes / table keys), accessor/unquoter/raw-role pairing by typestate, write-side quoter audit and tables, builder argument flow, verbatim constructor sinks, kind-checked return-self short-cuts, stateless shared unquoter instances, pending-buffer rule on every emission path of the compiled unquoter, parameter-to-cache taint rule for pre-filled query pairs, in-place cache-write rule scoped to the decoded-view keys",
     "C07": "static analysis: delimiter and search-direction table of the splitter extracted from call events vs RFC 3986 Appendix B, strip/remove sets by constant folding, substring-provenance walk of every returned component, port-zero truthiness rule in the authority helpers, substring-provenance of split_netloc, printer/parser template table over the parse-reachable part classes, folded accessor table raw_path_qs = raw_path + query",
     "C08": "static effect analysis: stores only on fresh objects, memoised code pure in its key, shared instances stateless, re-binding and argument-mutation discipline, cache hand-over judged by the slot dependencies of each cache key, one definition per co-filled cache key, memoised mutable values only copied (every spelling), one cache key per cached property, no removal from a URL cache",
     "C09": "static analysis: pickle field agreement, eager cache entries vs inlined lazy definitions over a None/empty/non-empty shape domain, assembly-consistency rule, cache hand-over judged by the slot dependencies of each cache key, port-zero truthiness rule in the authority helpers, substring-provenance of split_netloc, one cache key per cached property, bracket discipline of every pre-filled raw_host store (producer functions found by return-template flattening), parameter-to-cache taint rule for pre-filled query pairs",
     "C10": "static analysis: key tables of ==, hash and the ordering operators over the four emptiness cells of (path, authority), guard and operator checks, text-valued ordering keys judged not one-to-one from their flattened templates, pre-filled comparison keys vs their lazy definitions, hash-memo provenance, one cache key per cached property",
-    "C11": "static analysis: per-modifier component flow matrix on every return path with delegation following, authority re-assembly role check, builder argument flow, flag defaults, encodedness typestate incl. flag-controlled quoting in helpers, verbatim constructor sinks, kind-checked return-self short-cuts, bracket predicate of the accessor the authority is rebuilt from, bracket discipline of every pre-filled raw_host store",
+    "C11": "static analysis: per-modifier component flow matrix on every return path with delegation following, authority re-assembly role check, builder argument flow, flag defaults, encodedness typestate incl. flag-controlled quoting in helpers, verbatim constructor sinks, kind-checked return-self short-cuts, bracket predicate of the accessor the authority is rebuilt from, bracket discipline of every pre-filled raw_host store, in-place cache-write rule scoped to the parent/_origin keys",
     "C12": "static analysis: value-type gate evaluated over a finite type lattice, None/dispatch rules on guard facts, pair-quoting typestate, copy-before-update effect rules, multi-valued removal rule, merged-copy serialisation rule of update_query, None-free slot shapes, exact-equality memo keys",
     "C13": "static analysis: encodedness typestate for path splicing (single quoting, no re-quoting, no mixed-kind slicing, no decode-then-quote round trip), path-modifier flow matrix, verbatim constructor sinks, pre-filled path accessors vs their definitions, subscript shape rule",
     "C14": "static analysis: source-of-component table of join() on every path vs RFC 3986 5.2.2 (unmerged path-sensitive analysis), encoded-splice typestate, verbatim constructor sinks, one-removal-per-dot-dot and trailing-slash rules of the resolver, feasibility of merging a reference that has an authority (folded scheme tables)",
